@@ -15,10 +15,10 @@ const (
 )
 
 const (
-	OOk    = 0
-	OErr   = 1
-	OPanic = 2
-	ONil   = 3
+	OOk     = 0
+	OErr    = 1
+	OPanic  = 2
+	ONil    = 3
 	OCancel = 4
 )
 
@@ -31,13 +31,18 @@ type Dep struct {
 
 type Param struct {
 	Skip bool `json:"skip,omitempty"`
-	Dep  Dep  `json:"dep"`
+	// Emb: the field of the parameter object is an embedded (anonymous) pointer field; invisible to the model,
+	// a dependency like any other for the container. Only the shapes of static.go exist (reflect.StructOf cannot
+	// embed a type with methods).
+	Emb bool `json:"emb,omitempty"`
+	Dep Dep  `json:"dep"`
 }
 
 type Field struct {
-	Ty    int `json:"ty"`
-	Name  int `json:"name,omitempty"`
-	Group int `json:"group,omitempty"`
+	Ty    int  `json:"ty"`
+	Name  int  `json:"name,omitempty"`
+	Group int  `json:"group,omitempty"`
+	Emb   bool `json:"emb,omitempty"` // embedded field of the result object (static shapes only)
 }
 
 type Form struct {
@@ -127,14 +132,14 @@ type Result struct {
 }
 
 type Event struct {
-	Kind    string `json:"kind"` // ctor | closed
-	Rid     int    `json:"rid,omitempty"`
-	Inv     int    `json:"inv,omitempty"`
-	Args    []AVal `json:"args,omitempty"`
-	Outcome int    `json:"outcome,omitempty"`
-	Inst    *Inst  `json:"inst,omitempty"`
-	Ok      bool   `json:"ok,omitempty"`
-	Owner   int    `json:"owner,omitempty"`
+	Kind    string     `json:"kind"` // ctor | closed
+	Rid     int        `json:"rid,omitempty"`
+	Inv     int        `json:"inv,omitempty"`
+	Args    []AVal     `json:"args,omitempty"`
+	Outcome int        `json:"outcome,omitempty"`
+	Inst    *Inst      `json:"inst,omitempty"`
+	Ok      bool       `json:"ok,omitempty"`
+	Owner   int        `json:"owner,omitempty"`
 	Path    []PathNode `json:"path,omitempty"`
 }
 
